@@ -143,6 +143,10 @@ def read_precomputed_stats(
     for level in as_leaves:
         for node in as_leaves[level]:
             leaf_population = as_leaves[level][node]
+            if len(leaf_population) == 0:
+                # an inner node without children (accepted by the
+                # taxonomy validator) has no cells to aggregate
+                continue
             this = aggregate_stats(
                 leaf_population=leaf_population,
                 precomputed_stats=raw_results['cluster_stats'])
